@@ -23,7 +23,7 @@ CLAIMED = {
    note=NOTE_COMMON + "Well-formedness of the whole serialised document (bs4 prettify with the attribute-escaping formatter) is judged by lxml, not proved; class names that are not XML names are accepted by lxml's well-formedness check and not examined further."),
  "C12": dict(
    text=("Lean theorems over exact rationals: for a percentage layout the WebVTT settings are position = x + left padding, line = y + top padding, "
-         "size = width - left - right padding (vtt_settings_arith, vtt_settings_no_padding), align is omitted exactly for centred text and an absent alignment "
+         "size = width - left - right padding (vtt_settings_arith, vtt_settings_no_padding; partial layouts as the writer computes them: origin only - position and line, no size -, no origin - no position, no line, size = width minus the right padding only -, an absolute left edge with a percentage padding is refused rather than added up: vtt_settings_origin_only, vtt_settings_no_origin, vtt_settings_mixed_units_refused), align is omitted exactly for centred text and an absent alignment "
          "means start (vtt_align_names), cue settings read from a WebVTT file are written back verbatim whatever the writer options (vtt_settings_verbatim). "
          "The executable model of _convert_positioning (with relativization and fit-to-screen from C13) is compared with the writer's timing lines; an "
          "independent denotation checks the parsed settings; layout groups give separate cues with equal times. DFXP: for EVERY layout with non-negative "
